@@ -112,7 +112,7 @@ def parse_bem(class_value=''):
     return BEMData(class_names, find_block_name(class_names))
 
 
-def get_block_name(ancestors: list, depth=0, context: dict=None, lookup={}):
+def get_block_name(ancestors: list, depth=0, context: dict=None):
     """
     Returns block name for given `node` by `prefix`, which tells the depth of
     of parent node lookup
@@ -122,7 +122,11 @@ def get_block_name(ancestors: list, depth=0, context: dict=None, lookup={}):
     while max_parent_ix <= parent_ix:
         parent = get_item(ancestors, parent_ix)
         if parent:
-            data = get_bem_data(parent, lookup)
+            # Remember BEM data of the first lookup on the node itself: it must
+            # outlive the rewrite of the node's class attribute, but not the tree
+            data = getattr(parent, '_bem', None)
+            if data is None:
+                data = parent._bem = get_bem_data(parent, {})
             if data.block:
                 return data.block
         parent_ix -= 1
